@@ -300,15 +300,55 @@ impl CompressedCircuit {
         }
     }
 
+    /// Inflate `input` into at most `max_size` bytes, requiring the deflate
+    /// stream to span the whole input: data trailing the end of the stream
+    /// makes the description malformed.
+    fn inflate_exact(
+        mut input: &[u8],
+        max_size: usize,
+    ) -> Result<Vec<u8>, Error> {
+        use miniz_oxide::inflate::TINFLStatus;
+        use miniz_oxide::inflate::core::inflate_flags::TINFL_FLAG_USING_NON_WRAPPING_OUTPUT_BUF;
+        use miniz_oxide::inflate::core::{DecompressorOxide, decompress};
+
+        let mut out = vec![0u8; input.len().saturating_mul(2).min(max_size)];
+        let mut decompressor = DecompressorOxide::new();
+        let mut out_pos = 0;
+
+        loop {
+            let (status, in_consumed, out_written) = decompress(
+                &mut decompressor,
+                input,
+                &mut out,
+                out_pos,
+                TINFL_FLAG_USING_NON_WRAPPING_OUTPUT_BUF,
+            );
+            out_pos += out_written;
+            if in_consumed > input.len() {
+                return Err(Error::InvalidCompressedCircuit);
+            }
+            input = &input[in_consumed..];
+
+            match status {
+                TINFLStatus::Done if input.is_empty() => {
+                    out.truncate(out_pos);
+                    return Ok(out);
+                }
+                TINFLStatus::HasMoreOutput if out.len() < max_size => {
+                    let new_len = out.len().saturating_mul(2).min(max_size);
+                    out.resize(new_len.max(1), 0);
+                }
+                _ => return Err(Error::InvalidCompressedCircuit),
+            }
+        }
+    }
+
     pub fn from_bytes(
         compressed: &[u8],
         max_constraints: usize,
     ) -> Result<Composer, Error> {
         let max_size = Self::packed_size_limit(max_constraints)?;
-        let compressed = miniz_oxide::inflate::decompress_to_vec_with_limit(
-            compressed, max_size,
-        )
-        .map_err(|_| Error::InvalidCompressedCircuit)?;
+        let compressed = Self::inflate_exact(compressed, max_size)?;
         let circuit = Self::unpack_bounded(&compressed, max_constraints)?;
 
         let scalar_map = scalar_map(circuit.hades_optimization);
